@@ -195,6 +195,66 @@ def oracle(chk, inp, m, schema, ci, classes, rng, obs_names):
             chk.fail("copy-not-independent:" + cname, inp, "presence %r -> %r" % (before["presence"], now["presence"]))
 
 
+def reset_in_place(m, depth=3):
+    """take content back IN PLACE: clear every list / dict, store the default into every readable plain scalar, recurse
+    into sub-messages through attribute access (they are never assigned)"""
+    for name, meta in type(m)._betterproto.meta_by_field_name.items():
+        try:
+            v = getattr(m, name)
+        except AttributeError:
+            continue
+        if isinstance(v, (list, dict)):
+            v.clear()
+        elif isinstance(v, betterproto.Message):
+            if depth > 0:
+                reset_in_place(v, depth - 1)
+        elif v is not None and not meta.group and not meta.optional:
+            try:
+                setattr(m, name, m._get_field_default(name))
+            except Exception:
+                pass
+
+
+def twin_stage(chk, inp, m, twin, schema, ci, classes, rng, obs_names, force=None):
+    """"never change what a message SUBSEQUENTLY encodes to / reports as present": `m` is observed, its `twin` (built
+    the same way) is not; then BOTH get the same further history — content taken back in place, or every mutable path
+    changed with equally seeded generators — and must stay indistinguishable (bytes, presence, bytes of a deep copy).
+    On a tree with pure observers the two objects go through identical states, so this cannot raise a false alarm."""
+    import random
+    # (the twin is NOT looked at before the history: comparing the two objects first would observe it)
+    for name in obs_names:
+        try:
+            OBSERVERS[name](m)
+        except Exception:
+            pass
+    how = rng.choice(["reset", "reset", "mutate"])
+    sd = rng.getrandbits(32)
+    if force:
+        how, sd = force
+    for x in (m, twin):
+        try:
+            if how == "reset":
+                reset_in_place(x)
+            else:
+                mutate_everything(x, schema, ci, classes, random.Random(sd))
+        except Exception as e:
+            chk.count("twin_history_raises_" + type(e).__name__)
+    chk.count("twin_" + how)
+    try:
+        a, t = snapshot(m, schema, ci), snapshot(twin, schema, ci)
+        ca, ct = bytes(copy.deepcopy(m)), bytes(copy.deepcopy(twin))
+    except Exception as e:
+        chk.count("twin_snapshot_raises_" + type(e).__name__)
+        return
+    inp = dict(inp, then=how, then_seed=sd)
+    if a["bytes"] != t["bytes"]:
+        chk.fail("observed-then-%s-bytes-differ-from-unobserved-twin" % how, inp, "%s vs %s" % (a["bytes"].hex(), t["bytes"].hex()))
+    elif a["presence"] != t["presence"]:
+        chk.fail("observed-then-%s-presence-differs-from-unobserved-twin" % how, inp, "%r vs %r" % (a["presence"], t["presence"]))
+    elif ca != ct:
+        chk.fail("observed-then-%s-deepcopy-differs-from-unobserved-twin" % how, inp, "%s vs %s" % (ca.hex(), ct.hex()))
+
+
 def make_message(rng, b, v):
     """value from a constructor, from bytes (with unknown fields) or from a dict"""
     ci = v[1]
@@ -280,6 +340,19 @@ def run(chk, drv):
                 chk.count("observer_" + n)
             chk.case(b.schema_line() + bpgen.term(v) + how + ",".join(names), not W.is_trivial(v), {"value": bpgen.term(v), "how": how, "observers": names})
             oracle(chk, inp, m, b.schema, ci, b.classes, rng, names)
+            # stage "twin": an observed message and an unobserved twin built the same way, then the same further history
+            try:
+                if raw:
+                    m_a, m_t = build_in_place(b, v, sd)[0], build_in_place(b, v, sd)[0]
+                elif data is not None:
+                    m_a, m_t = b.classes[ci]().parse(data), b.classes[ci]().parse(data)
+                else:
+                    m_a, m_t = bpgen.to_py(v, b.classes), bpgen.to_py(v, b.classes)
+                twin_stage(chk, inp, m_a, m_t, b.schema, ci, b.classes, rng, names)
+            except Exception as e:
+                if "betterproto" in (getattr(e, "__traceback__", None) and e.__traceback__.tb_frame.f_code.co_filename or ""):
+                    raise
+                chk.count("twin_skipped_" + type(e).__name__)
             # stage "heap": the SHARING pattern of copy / deepcopy / pickle against the heap model (Props/C14Heap.lean)
             if bi % heap_every == 0 or not W.is_trivial(v) and rng.random() < heap_p:
                 heapcopy.stage(chk, drv, b, v, {"schema": b.describe(), "value": bpgen.term(v)})
@@ -389,14 +462,22 @@ def replay(chk, rp):
         heapcopy.heap_case(c, None, schema, classes, v, inp["heap_seed"], {"schema": inp["schema"], "value": inp["value"]})
         return bool(c.oracle_failures)
     ci = v[1]
-    m = bpgen.to_py(v, classes)
-    if inp.get("data"):
-        m = classes[ci]().parse(bytes.fromhex(inp["data"]))
-    elif inp.get("how") == "dict":
-        m = classes[ci]().from_dict(m.to_dict())
-    elif inp.get("how") == "inplace":
-        import types
-        m, _ = build_in_place(types.SimpleNamespace(classes=classes, schema=schema), v, inp["fill_seed"])
+
+    def build():
+        m = bpgen.to_py(v, classes)
+        if inp.get("data"):
+            m = classes[ci]().parse(bytes.fromhex(inp["data"]))
+        elif inp.get("how") == "dict":
+            m = classes[ci]().from_dict(m.to_dict())
+        elif inp.get("how") == "inplace":
+            import types
+            m, _ = build_in_place(types.SimpleNamespace(classes=classes, schema=schema), v, inp["fill_seed"])
+        return m
+
+    m = build()
     c = type(chk)(chk.pid, "quick", 0)
+    if inp.get("then"):
+        twin_stage(c, inp, m, build(), schema, ci, classes, c.rng, inp["observers"], force=(inp["then"], inp["then_seed"]))
+        return bool(c.oracle_failures)
     oracle(c, inp, m, schema, ci, classes, c.rng, inp["observers"])
     return bool(c.oracle_failures)
